@@ -21,7 +21,6 @@ Definition s_t3_info_request_client : option (list N) := Some [84; 111; 107; 101
 Definition s_t3_info_response_client : option (list N) := Some [84; 111; 107; 101; 110; 82; 101; 115; 112; 111; 110; 115; 101]. (* 'TokenResponse' *)
 Definition s_t3_info_request_issuer : option (list N) := Some [84; 111; 107; 101; 110; 82; 101; 113; 117; 101; 115; 116]. (* 'TokenRequest' *)
 Definition s_t3_info_response_issuer : option (list N) := Some [84; 111; 107; 101; 110; 82; 101; 115; 112; 111; 110; 115; 101]. (* 'TokenResponse' *)
-Definition s_t3_pad : option (list N) := Some [31; 1; 32].
 Definition s_t3_request_fields : option (list N) := Some [49; 32; 96].
 Definition s_type1 : option N := Some 1.
 Definition s_type2 : option N := Some 2.
@@ -38,8 +37,6 @@ Definition s_oid_pss : option (list N) := Some [1; 2; 840; 113549; 1; 1; 10].
 Definition s_oid_sha384 : option (list N) := Some [2; 16; 840; 1; 101; 3; 4; 2; 2].
 Definition s_oid_mgf1 : option (list N) := Some [1; 2; 840; 113549; 1; 1; 8].
 Definition s_pss_salt : option N := Some 48.
-Definition s_varint_thresholds : option (list N) := Some [63; 16383; 1073741823; 4611686018427387903].
-Definition s_varint_size_thresholds : option (list N) := Some [63; 16383; 1073741823; 4611686018427387903].
 Definition s_max_varint : option N := Some 4611686018427387903.
 Definition s_ed_sizes : option (list N) := Some [32; 64; 64; 32].
 Definition s_ed_blind_sep : option N := Some 0.
